@@ -22,6 +22,7 @@ func init() {
 			"R1.7 one discovery snapshot per replica iteration is passed to every planning step; " +
 			"R1.8 crash freedom, structural part: integer divisions by an Option field are guarded by field!=0 on the path or validated non-zero before NewCoordinator; report getters return non-nil containers on every return. " +
 			"R1.10 the function that starts the posting goroutines waits for all of them itself on every path before it returns (a post still in flight would land after a later cycle's post); R1.8 also: the weights of the random pick are positive for every offered shard (limit - load of a dimension whose fit test holds there), since the chooser's construction error is discarded and a chooser of zero weights is nil. " +
+			"R1.4 also: Shard.UpdateTarget sends the request it was given in exactly one POST outside any loop (the sidecar replaces its whole list on every request). " +
 			"Not decided: the loop-level invariant over three or more holders (iteration order, runtime loads); crash freedom for run-time-bounded values.",
 		Assumptions: []string{"go/types and go/ssa are correct", "field-based may-alias memory model", "a JSON decoder writing null through an escaped address is outside what a sidecar produces"}})
 }
@@ -492,6 +493,7 @@ func runC01(p *engine.Prog, r *engine.Report) {
 	c.checkGCFirst(r)
 	c.checkApplyJoined(r)
 	c.checkPickWeights(r)
+	c.checkSinglePost(r)
 }
 
 // ownBase renders m[k] of a Lookup with its version (without the has()/tuple wrapper).
